@@ -359,9 +359,10 @@ func VerifC05FieldHistory() {
 		verifAssume(f2[i] != ' ' && f2[i] != '\t' && f2[i] != '\n' && f2[i] != '\r' && f2[i] != '\v' && f2[i] != '\f' && f2[i] < 0x80)
 	}
 	verifAssume(f2 != "")
-	firsts := []string{`NR == 1 { $2 = "x" }`, `NR == 1 { $2 = "x"; $3 = "y"; NF = 1 }`, `NR == 1 { sub(/b/, "q", $2) }`, `NR == 1 { $0 = "p q"; $1 = "r" }`, `NR == 1 { n = $2 + 0 }`}
-	src := firsts[verifIntRange(0, len(firsts)-1)] + ` NR == 2 { r = ($2 < 9); s = ($2 == 10); t = ($1 == 1.0); u = $2 }`
-	input := []byte("a b c\n1 " + f2 + "\n")
+	firsts := []string{`NR == 1 { $2 = "x" }`, `NR == 1 { $2 = "x"; $3 = "y"; NF = 1 }`, `NR == 1 { sub(/b/, "q", $2) }`, `NR == 1 { $0 = "p q"; $1 = "r" }`, `NR == 1 { n = $2 + 0 }`,
+		`NR == 1 { $3 = "x"; NF = 2 }`, `NR == 1 { $4 = "x"; $2 = "y"; NF = 1; NF = 3 }`, `NR == 1 { $3 = "x"; $0 = "p" }`, `NR == 1 { $6 = "x"; NF = 2; $0 = "p q r s" }`, `NR == 1 { gsub(/[a-d]/, "z"); NF = 3 }`}
+	src := firsts[verifIntRange(0, len(firsts)-1)] + ` NR == 2 { r = ($2 < 9); s = ($2 == 10); t = ($1 == 1.0); u = $2; r3 = ($3 < 9); s3 = ($3 == 10); r4 = ($4 < 9); s4 = ($4 == 10) }`
+	input := []byte("a b c d\n1 " + f2 + " " + f2 + " " + f2 + "\n")
 	cfg := &Config{Stdin: bytes.NewReader(input), Output: &bytes.Buffer{}, Error: &bytes.Buffer{}, Environ: []string{}}
 	_, err, p := verifRunProgram(src, cfg, nil)
 	verifAssert(err == nil, "run failed")
@@ -376,6 +377,8 @@ func VerifC05FieldHistory() {
 	verifReach("second-record")
 	verifAssert((verifGlobal(p, "r").n == 1) == wantR && (verifGlobal(p, "s").n == 1) == wantS && verifGlobal(p, "t").n == 1,
 		"a field of a later record is compared as a string (or number) because of what was done to an earlier record")
+	verifAssert((verifGlobal(p, "r3").n == 1) == wantR && (verifGlobal(p, "s3").n == 1) == wantS && (verifGlobal(p, "r4").n == 1) == wantR && (verifGlobal(p, "s4").n == 1) == wantS,
+		"a later field of a later record is compared as a string (or number) because of what was done to an earlier record")
 }
 
 func VerifC05Compare() { verifC05Compare([]int{0, 1, 2, 3, 4, 5}, verifBound(1, 2), false) }
